@@ -413,14 +413,28 @@ class InstanceValue(Object):
         self.cls = cls
 
     @cached_property
-    def _attrs(self):
+    def _inst_attrs(self):
         # type: () -> Attributes
-        attrs = self.cls._attrs.copy()
+        # attributes assigned through self, in this class and in its bases
+        attrs = {}  # type: Attributes
         for b in reversed(self.cls.bases):
             o = b.call(self.ctx)
-            if o:
-                attrs.update(o._attrs)
+            if isinstance(o, InstanceValue):
+                attrs.update(o._inst_attrs)
         attrs.update(self.cls.scope.top.assigns(self.ctx).get(self, {}))
+        return attrs
+
+    @cached_property
+    def _attrs(self):
+        # type: () -> Attributes
+        # instance assignments win over class attributes of the whole MRO
+        attrs = {}  # type: Attributes
+        for b in reversed(self.cls.bases):
+            o = b.call(self.ctx)
+            if o and not isinstance(o, InstanceValue):
+                attrs.update(o._attrs)
+        attrs.update(self.cls._attrs)
+        attrs.update(self._inst_attrs)
         return attrs
 
 
